@@ -112,9 +112,11 @@ def main():
     meta['caught_by'] = [c for c, d in detected.items() if d['exit'] == 1]
     dst = os.path.join(ROOT, 'seeded', a.seed_id)
     os.makedirs(dst, exist_ok=True)
-    shutil.copy(patch, os.path.join(dst, 'patch.diff'))
-    shutil.copy(demo, os.path.join(dst, 'demo.py'))
-    if os.path.exists(os.path.join(a.src, 'notes.md')):
+    same = os.path.abspath(a.src) == os.path.abspath(dst)        # re-evaluation of a seed already filed
+    if not same:
+        shutil.copy(patch, os.path.join(dst, 'patch.diff'))
+        shutil.copy(demo, os.path.join(dst, 'demo.py'))
+    if not same and os.path.exists(os.path.join(a.src, 'notes.md')):
         shutil.copy(os.path.join(a.src, 'notes.md'), os.path.join(dst, 'notes.md'))
     with open(os.path.join(dst, 'meta.json'), 'w') as f:
         json.dump(meta, f, indent=1)
